@@ -1,12 +1,74 @@
 (* C20 - threaded server: concurrent terminations of one client.  Property theorems only.
-   Model: Conc/ServerConc.v at thread granularity (one scheduling choice = one access to the
-   client manager / eio.send / the disconnect handler / server.environ).  [outcome] (ConcSpec.v)
-   is the property: handler at most once at any time and exactly once when all tasks have
-   finished, no exception, no trace of the client, everybody else untouched. *)
+
+   Model: Conc/ServerConc.v.  The threaded server as it is now (Server.disconnect() and
+   Server._handle_disconnect() perform is_connected + pre_disconnect while holding
+   self._disconnect_lock) is the granularity GLocked: one scheduling choice = ONE access to the
+   client manager / the lock / eio.send / the disconnect handler / server.environ; a task that
+   wants the lock cannot move while another task holds it; disconnect() first makes one
+   unlocked check (can_disconnect).  Part 1 states the property for ALL schedules of that
+   code.  Part 2 documents what the lock repaired: the same code without the lock (granularity
+   GThread) violates the property, and every violation goes through the double-check window. *)
 From VT Require Import Conc.ConcProofs.
 
-(* The property is FALSE of the faithful model: witnesses with two tasks (server.disconnect()
-   in one thread, the client's DISCONNECT packet in the other) on a client alone in "/". *)
+(* ===================== Part 1: the code with the lock, all schedules ===================== *)
+
+(* For ANY number of concurrent terminating tasks (server.disconnect(), client DISCONNECT,
+   transport loss, on any sids / namespaces / transports), any well-formed quiescent start, ALL
+   schedules of any length: the disconnect handler of a client has run at most once at any
+   moment, only for clients connected at the start, and exactly once for every connected client
+   some task was aimed at when all tasks have finished. *)
+Theorem C20_once :
+  forall R m0 env0 causes, quiescent_start m0 -> forall sched,
+    let c := run_sched GLocked R causes sched m0 env0 in
+    (forall s ns, hcount s ns (c_log c) <= 1) /\
+    (forall s ns, 1 <= hcount s ns (c_log c) -> in_room m0 ns PNone s = true) /\
+    (all_done c = true -> forall k s ns, In k causes -> targets m0 k s ns ->
+       in_room m0 ns PNone s = true -> hcount s ns (c_log c) = 1).
+Proof. exact locked_once. Qed.
+Print Assumptions C20_once.
+
+(* No exception escapes any thread (R = the sids whose scripted handler raises). *)
+Theorem C20_no_raise :
+  forall R m0 env0 causes, quiescent_start m0 -> forall sched,
+    R = [] -> raised (c_log (run_sched GLocked R causes sched m0 env0)) = false.
+Proof. exact locked_no_raise. Qed.
+Print Assumptions C20_no_raise.
+
+(* Afterwards no trace of the client remains: in no room, not connected, callbacks deleted,
+   nothing pending at all, environ of lost transports deleted (also when handlers raise). *)
+Theorem C20_no_trace :
+  forall R m0 env0 causes, quiescent_start m0 -> forall sched,
+    let c := run_sched GLocked R causes sched m0 env0 in
+    all_done c = true ->
+    (forall k s ns, In k causes -> targets m0 k s ns -> in_room m0 ns PNone s = true ->
+       (forall r, room_ok r -> in_room (c_mgr c) ns r s = false) /\
+       is_connected (c_mgr c) (Some s) ns = false /\
+       aget str_eqb (callbacks (c_mgr c)) s = None) /\
+    (forall s ns, is_pending (c_mgr c) s ns = false) /\
+    (forall e r, In (CLoss e r) causes -> ~ In e (c_env c)).
+Proof. exact locked_no_trace. Qed.
+Print Assumptions C20_no_trace.
+
+(* The complete statement (adds: clients whose handler has not run keep every membership and
+   their callbacks; transports nobody lost keep their environ). *)
+Theorem C20_all_schedules :
+  forall R m0 env0 causes, quiescent_start m0 -> forall sched,
+    outcome R m0 env0 causes (run_sched GLocked R causes sched m0 env0).
+Proof. exact locked_all. Qed.
+Print Assumptions C20_all_schedules.
+
+(* Why: with the lock two tasks never stand between their check and their mark for the same
+   client at the same time. *)
+Theorem C20_lock_excludes_double_check :
+  forall R m0 env0 causes, quiescent_start m0 -> forall sched,
+    double_window (run_sched GLocked R causes sched m0 env0) = false.
+Proof. exact locked_window_exclusive. Qed.
+Print Assumptions C20_lock_excludes_double_check.
+
+(* ============ Part 2: the code WITHOUT the lock (before the repair): what it fixed ============ *)
+
+(* Without the lock the property is FALSE: witnesses with two tasks (server.disconnect() in one
+   thread, the client's DISCONNECT packet in the other) on a client alone in "/". *)
 Theorem C20_refuted :
   exists R m0 env0 causes sched, quiescent_start m0 /\
     ~ outcome R m0 env0 causes (run_sched GThread R causes sched m0 env0).
@@ -32,39 +94,28 @@ Theorem C20_refuted_keyerror_leftover :
 Proof. exact thread_refuted_keyerror. Qed.
 Print Assumptions C20_refuted_keyerror_leftover.
 
-(* Characterisation: EVERY violating schedule (any number of tasks, any well-formed quiescent
-   start, any length) has a prefix after which two tasks have observed is_connected = True
-   for the same (sid, namespace) and neither has called pre_disconnect yet. *)
+(* Without the lock EVERY violating schedule (any number of tasks, any start, any length) has a
+   prefix after which two tasks have observed is_connected = True for the same (sid, namespace)
+   and neither has called pre_disconnect yet: the signature `double-check-window-*`. *)
 Theorem C20_only_via_double_check :
   forall R m0 env0 causes, quiescent_start m0 -> forall sched,
     ~ outcome R m0 env0 causes (run_sched GThread R causes sched m0 env0) ->
-    exists k, double_window (prefix_cfg GThread R (init m0 env0 causes) sched k) = true.
+    exists k, double_window (prefix_cfg GThread R (init GThread m0 env0 causes) sched k) = true.
 Proof. exact only_via_double_check. Qed.
 Print Assumptions C20_only_via_double_check.
 
-(* Equivalently: a schedule that never lets a second task answer its check for a client while
-   another task stands between its check and its mark for the same client is safe. *)
+(* Equivalently, without the lock the schedules that never open the window twice are safe ... *)
 Theorem C20_except :
   forall R m0 env0 causes, quiescent_start m0 -> forall sched,
-    no_double_check GThread R (init m0 env0 causes) sched ->
+    no_double_check GThread R (init GThread m0 env0 causes) sched ->
     outcome R m0 env0 causes (run_sched GThread R causes sched m0 env0).
 Proof. exact thread_except. Qed.
 Print Assumptions C20_except.
 
-(* In particular when the terminating actions run one after the other. *)
+(* ... in particular when the terminating actions run one after the other. *)
 Theorem C20_sequential :
   forall R m0 env0 causes, quiescent_start m0 -> forall sched,
-    sequential GThread R (init m0 env0 causes) sched ->
+    sequential GThread R (init GThread m0 env0 causes) sched ->
     outcome R m0 env0 causes (run_sched GThread R causes sched m0 env0).
 Proof. exact thread_sequential. Qed.
 Print Assumptions C20_sequential.
-
-(* What a repair has to achieve, and that it suffices: if is_connected + pre_disconnect form one
-   critical section (granularity GLocked: every other access is still its own step), the
-   property holds for ALL schedules, any number of tasks.  (Not a statement about the pinned
-   tree: GLocked is not its granularity.) *)
-Theorem C20_repaired_if_check_and_mark_atomic :
-  forall R m0 env0 causes, quiescent_start m0 -> forall sched,
-    outcome R m0 env0 causes (run_sched GLocked R causes sched m0 env0).
-Proof. exact locked_all. Qed.
-Print Assumptions C20_repaired_if_check_and_mark_atomic.
